@@ -292,7 +292,10 @@ Emit ==
     IN  PrintT("VJSON " \o ToJson([c |-> [fam |-> cs.fam, m |-> cs.m], js |-> <<"RC(", [lit |-> cs], ")">>,
                                      exp |-> es, dev |-> IF ed = es THEN <<>> ELSE <<ed>>]))
 
-View == <<blk, cs, heap>>
+(* the history is hidden from the fingerprint, its length is not: with several workers a heap can be *)
+(* reached first through a longer path, and then it would not be expanded although a shorter path     *)
+(* exists; with the length in the view every heap is expanded at every depth at which it occurs       *)
+View == <<blk, cs, heap, Len(hist)>>
 vars == <<blk, cs, heap, hist>>
 
 -----------------------------------------------------------------------------
